@@ -51,7 +51,7 @@ def same_tree(a: Any, b: Any, tol: float) -> str | None:
 
 
 def case(rng: Any, ctx: Ctx, index: int) -> None:
-    s, op = rand_operator(rng, ctx, atoms=0.6, lazy_inverse=bool(rng.integers(5) == 0))
+    s, op = rand_operator(rng, ctx, atoms=0.6, lazy_inverse=bool(rng.integers(5) == 0), index=index)
     names = dense.class_names(op)
     top = type(op).__name__
     x = gen.rand_input(rng, s)
